@@ -52,11 +52,7 @@ def run(ctx):
                     timeout=3000)
     fireloops(ctx)
     # ordering for the two vector-agenda engines: FireOrder.tla cases (n up to 55 / 128 rules, eight priority patterns)
-    gen = "Gen_FireOrder.cfg" if q else "Gen_FireOrder_all.cfg"
-    edges = ctx.path(gen + ".edges")
-    g = c.tlc_gen(ctx, "FireOrder.tla", gen, edges, timeout=900)
-    r = c.replay(ctx, "fireorder", edges)
-    c.log("  fire order (ReteUlEngine / TypedReteUlEngine): %d cases, %d failing" % (g["edges"], r["failures_n"]))
+    c.order_leg(ctx, "Gen_FireOrder.cfg" if q else "Gen_FireOrder_all.cfg", "fire order (ReteUlEngine / TypedReteUlEngine)")
     ctx.cov["rule"] = ("agenda: shortest path + one edge for every (state,op) of the TLC-dumped ReteAgenda graph (6 rules: salience tie, "
                        "negative salience, two agenda groups, activation group, lock-on-active, auto-focus, no-loop on/off), all op "
                        "sequences to the all-histories depth, seeded walks and TLC-simulated behaviours of 12 ops on a real "
